@@ -40,6 +40,9 @@ def run(ctx):
         n = (int(rng.choice(ext)), int(rng.choice(ext)), int(rng.choice([3, 4, 5, 9, 16])))
         if n[0] * n[1] > 9000:
             n = (n[0], int(rng.choice([2, 5, 63, 64, 65])), n[2])
+        if k % 4 == 1:   # traces longer than one 1024-sample block: a source chunk spans several disk blocks
+            n = (int(rng.choice([3, 4, 66])) if k % 8 == 1 else int(rng.choice([2, 5])), int(rng.choice([5, 65, 68, 130])),
+                 int(rng.choice([1025, 1100, 2049, 2050])))
         irregular = k % 5 == 3
         ver = spec.version_encode(*[(0, 2, 9, True), (0, 2, 1, True), (0, 2, 2, False), (0, 1, 3, True)][k % 4])
         if irregular:
